@@ -1,5 +1,8 @@
 mod c01;
+mod c04;
+mod c05;
 mod c07;
+mod c17;
 mod enum_fol;
 mod dom;
 mod enum_asp;
@@ -50,6 +53,9 @@ fn main() {
             "C01" => c01::replay(c01::Mode::C01, &v),
             "C08" => c01::replay(c01::Mode::C08, &v),
             "C07" => c07::replay(c07::Mode::C07, &v),
+            "C05" => c05::replay(&v),
+            "C04" => c04::replay(&v),
+            "C17" => c17::replay(&v),
             "C18" => c07::replay(c07::Mode::C18, &v),
             _ => {
                 eprintln!("no replay for {id}");
@@ -63,6 +69,9 @@ fn main() {
         "C01" => c01::run(c01::Mode::C01, &run),
         "C08" => c01::run(c01::Mode::C08, &run),
         "C07" => c07::run(c07::Mode::C07, &run),
+        "C05" => c05::run(&run),
+        "C04" => c04::run(&run),
+        "C17" => c17::run(&run),
         "C18" => c07::run(c07::Mode::C18, &run),
         _ => {
             eprintln!("unknown property {id}");
